@@ -6,6 +6,7 @@ import (
 	"io"
 	"strings"
 
+	"github.com/freeconf/yang/fc"
 	"github.com/freeconf/yang/meta"
 	"github.com/freeconf/yang/node"
 	"github.com/freeconf/yang/patch/xml"
@@ -73,12 +74,34 @@ func (x *XmlNode) Child(r node.ChildRequest) (node.Node, error) {
 		// The XML elements representing list entries MAY be interleaved with elements
 		// for siblings of the list
 		for ndx >= 0 {
+			if err := x.Nodes[ndx].checkHasElements(r.Meta); err != nil {
+				return nil, err
+			}
 			found = append(found, x.Nodes[ndx])
 			ndx = x.Find(ndx+1, r.Meta)
 		}
 		return &XmlNode{XMLName: x.XMLName, Nodes: found}, nil
 	}
+	if err := x.Nodes[ndx].checkHasElements(r.Meta); err != nil {
+		return nil, err
+	}
 	return x.Nodes[ndx], nil
+}
+
+// element for a container or list item holds elements, not text
+func (x *XmlNode) checkHasElements(m meta.Definition) error {
+	if len(x.Nodes) == 0 && x.ContentTrim() != "" {
+		return fmt.Errorf("%w. expected elements inside '%s', found text", fc.BadRequestError, m.Ident())
+	}
+	return nil
+}
+
+// element for a leaf or leaf-list item holds text, not elements
+func (x *XmlNode) checkHasNoElements(m meta.Definition) error {
+	if len(x.Nodes) > 0 {
+		return fmt.Errorf("%w. expected text inside '%s', found elements", fc.BadRequestError, m.Ident())
+	}
+	return nil
 }
 
 func (x *XmlNode) Next(r node.ListRequest) (node.Node, []val.Value, error) {
@@ -145,11 +168,17 @@ func (x *XmlNode) Field(r node.FieldRequest, hnd *node.ValueHandle) error {
 		// The XML elements representing list entries MAY be interleaved with elements
 		// for siblings of the list
 		for ndx >= 0 {
+			if err := x.Nodes[ndx].checkHasNoElements(r.Meta); err != nil {
+				return err
+			}
 			found = append(found, x.Nodes[ndx].ContentTrim())
 			ndx = x.Find(ndx+1, r.Meta)
 		}
 		hnd.Val, err = node.NewValue(r.Meta.Type(), found)
 	} else {
+		if err := x.Nodes[ndx].checkHasNoElements(r.Meta); err != nil {
+			return err
+		}
 		hnd.Val, err = node.NewValue(r.Meta.Type(), x.Nodes[ndx].ContentTrim())
 	}
 	return err
